@@ -392,7 +392,7 @@ def generate(rng, tier):
     k = 1 if tier == "quick" else 8
     gens = [gen_ps(rng, 500 * k), gen_diff(rng, 150 * k), gen_fn(rng, 100 * k), gen_objstm(rng, 250 * k), gen_widths(rng, 250 * k),
             gen_crypt(rng, 250 * k), gen_pages(rng, 80 * k), gen_tree(rng, 150 * k), gen_unpredict(rng, 200 * k), gen_fax(rng, 200 * k),
-            gen_xref(rng, 150 * k), gen_fn0_exhaustive(), gen_annot_pages()]
+            gen_xref(rng, 150 * k), gen_fn0_exhaustive(), gen_annot_pages(), gen_big()]
     for g in gens:
         for c in g:
             yield c
@@ -455,6 +455,16 @@ def gen_annot_pages():
         for o in (b"s", b"t"):
             for ch in (b"c", b"n"):
                 yield Case("walk", [o, ch, data], model=False, check=annot_own_page if own else None, tags=["planted", "annot-p", tag], note=tag)
+
+
+def gen_big():
+    """one big instance of every typed kind the walker loads (hostile.big_instances), caches on and off: the heap-size estimates
+    behind the size-weighted object cache run only there"""
+    from oracle import hostile
+    for tag, data in hostile.big_instances():
+        for o in (b"s", b"t"):
+            for ch in (b"c", b"n"):
+                yield Case("walk", [o, ch, data], model=False, tags=["planted", "big", tag], note=tag)
 
 
 # planted numeric fields that reach sites repaired (and proved) by other areas
